@@ -527,7 +527,9 @@ func (e *Engine) invoke(recv *IfaceV, m *types.Func, args []Value, pos token.Pos
 			if sel == nil {
 				panic(e.unsupported("method %s not found on %v", m.Name(), a.T))
 			}
+			buildMu.Lock()
 			fn := e.prog.MethodValue(sel)
+			buildMu.Unlock()
 			if fn == nil {
 				panic(e.unsupported("no method value for %s on %v", m.Name(), a.T))
 			}
